@@ -166,7 +166,7 @@ mkunaryexpr(enum tokenkind op, struct expr *base)
 			error(&tok.loc, "cannot dereference non-pointer");
 		if (base->type->base->kind == TYPEENUM && base->type->base->incomplete)
 			error(&tok.loc, "cannot dereference pointer to incomplete enum type");
-		if (base->kind == EXPRUNARY && base->op == TBAND) {
+		if (base->kind == EXPRUNARY && base->op == TBAND && base->base->kind != EXPRSTRING) {
 			type = base->type->base;
 			expr = base->base;
 			expr->qual = base->type->qual;
